@@ -25,7 +25,7 @@
    (read_own_writes)     FALSE with a second collection on the file and a small capacity:
                          C05_read_own_writes_refuted; for one collection per file it is part of
                          C05_buffer_transparent_partial (all results equal those of the unbuffered run).
-   (doc_handle_follows)  proved: C05_doc_handle_follows_rekey / _remove / _op. *)
+   (doc_handle_follows)  proved: C05_doc_handle_follows_rekey / _copy / _remove / _op. *)
 From SV Require Import Base Json Canon Doc CorrC05 C05Proofs.
 
 Theorem C05_buffer_transparent_partial : forall (frepr : fl -> str) prog st0,
@@ -102,6 +102,21 @@ Theorem C05_doc_handle_follows_rekey : forall (frepr : fl -> str) js j f f' d,
                 nlookup h (mems (core js2)) = Some (f', empty_obj) /\ nmem f' (dirs js2) = true.
 Proof. exact follow_rekey. Qed.
 Print Assumptions C05_doc_handle_follows_rekey.
+
+(* shallow copies (copy.copy of a Job object, taken before its document was accessed) share the state point: a state
+   point change through one re-keys all.  In the programs of the correspondence the copy becomes an object for the new
+   id right after the re-key (item "follow", no action on the implementation); it then names the same document file
+   as the object the change was made through (added with seeded change C05-11) *)
+Theorem C05_doc_handle_follows_copy : forall (frepr : fl -> str) js j c f f' d prov,
+  c <> j -> prov <> prov_symlink ->
+  nlookup j (jobs js) = Some (f, d) -> f <> f' -> nmem f (dirs js) = true -> nmem f' (dirs js) = false ->
+  let js1 := fst (jstep frepr merge (fun k : N => k) js (JRekey j f')) in
+  let js2 := fst (jstep frepr merge (fun k : N => k) js1 (JOpen c f' prov)) in
+  snd (jstep frepr merge (fun k : N => k) js1 (JOpen c f' prov)) = Ok JNull /\
+  nlookup c (jobs js2) = Some (f', None) /\ nlookup j (jobs js2) = Some (f', None) /\
+  core js2 = core js1 /\ dirs js2 = dirs js1.
+Proof. exact follow_copy. Qed.
+Print Assumptions C05_doc_handle_follows_copy.
 
 Theorem C05_doc_handle_follows_move : forall (frepr : fl -> str) js j f d,
   nlookup j (jobs js) = Some (f, d) -> nmem f (dirs js) = true -> nmem (f + 10)%N (dirs js) = false -> f <> 0%N ->
